@@ -307,7 +307,7 @@ fn v5_next_pkid_contract() {
 // ------------------------------------------------------------------------------------------
 // PUBACK
 // ------------------------------------------------------------------------------------------
-// @steps name=v5_puback props=C02,C07,C10 fn=v5::MqttState::handle_incoming_puback call=puback_step ns=quick:1;thorough:1,2,3
+// @steps name=v5_puback props=C02,C07,C10,C18 fn=v5::MqttState::handle_incoming_puback call=puback_step ns=quick:1;thorough:1,2,3
 fn puback_step(n: usize) {
     let mut st = any_state(n, 0);
     let g = ghost(&st);
@@ -349,6 +349,7 @@ fn puback_step(n: usize) {
             assert!(h.events == g.events, "C10 puback.err_no_event");
         }
     }
+    assert!(h.await_pingresp == g.await_pingresp, "C18 puback.ping_flag_untouched");
     assert!(wf_g(&st, &h), "C02 puback.wf");
     kani::cover!(r.is_err() && k > n, "ack above table");
     core::mem::forget(r);
@@ -359,7 +360,7 @@ fn puback_step(n: usize) {
 // ------------------------------------------------------------------------------------------
 // PUBREC
 // ------------------------------------------------------------------------------------------
-// @steps name=v5_pubrec props=C02,C07,C10 fn=v5::MqttState::handle_incoming_pubrec call=pubrec_step
+// @steps name=v5_pubrec props=C02,C07,C10,C18 fn=v5::MqttState::handle_incoming_pubrec call=pubrec_step
 fn pubrec_step(n: usize) {
     let mut st = any_state(n, 0);
     let g = ghost(&st);
@@ -411,6 +412,7 @@ fn pubrec_step(n: usize) {
             assert!(h.events == g.events, "C10 pubrec.err_no_event");
         }
     }
+    assert!(h.await_pingresp == g.await_pingresp, "C18 pubrec.ping_flag_untouched");
     assert!(wf_g(&st, &h), "C02,C07 pubrec.wf");
     kani::cover!(r.is_ok() && !fail, "solicited pubrec");
     kani::cover!(r.is_err() && k > n, "pubrec above table");
@@ -421,7 +423,7 @@ fn pubrec_step(n: usize) {
 // ------------------------------------------------------------------------------------------
 // PUBCOMP
 // ------------------------------------------------------------------------------------------
-// @steps name=v5_pubcomp props=C02,C07,C10 fn=v5::MqttState::handle_incoming_pubcomp call=pubcomp_step
+// @steps name=v5_pubcomp props=C02,C07,C10,C18 fn=v5::MqttState::handle_incoming_pubcomp call=pubcomp_step
 fn pubcomp_step(n: usize) {
     let mut st = any_state(n, 0);
     let g = ghost(&st);
@@ -464,6 +466,7 @@ fn pubcomp_step(n: usize) {
             assert!(h.events == g.events, "C10 pubcomp.err_no_event");
         }
     }
+    assert!(h.await_pingresp == g.await_pingresp, "C18 pubcomp.ping_flag_untouched");
     assert!(wf_g(&st, &h), "C02,C07 pubcomp.wf");
     kani::cover!(r.is_err() && k > n, "pubcomp above table");
     core::mem::forget(r);
@@ -473,7 +476,7 @@ fn pubcomp_step(n: usize) {
 // ------------------------------------------------------------------------------------------
 // outgoing publish
 // ------------------------------------------------------------------------------------------
-// @steps name=v5_outgoing_publish props=C02,C07,C10 fn=v5::MqttState::outgoing_publish call=outgoing_publish_step ns=quick:1,2;thorough:1,2,3,4
+// @steps name=v5_outgoing_publish props=C02,C07,C10,C18 fn=v5::MqttState::outgoing_publish call=outgoing_publish_step ns=quick:1,2;thorough:1,2,3,4
 fn outgoing_publish_step(n: usize) {
     let mut st = any_state(n, 0);
     let g = ghost(&st);
@@ -524,6 +527,7 @@ fn outgoing_publish_step(n: usize) {
             assert!(frame(&g, &h, NONE, NONE) && h.inflight == g.inflight && h.collision == g.collision, "C02 outgoing_publish.err_frame");
         }
     }
+    assert!(h.await_pingresp == g.await_pingresp, "C18 outgoing_publish.ping_flag_untouched");
     assert!(wf_g(&st, &h), "C02,C07 outgoing_publish.wf");
     kani::cover!(matches!(&r, Ok(Some(_))) && input.qos != 0 && input.pkid == 0 && g.last_pkid + 1 == st.max_outgoing_inflight, "id wrap-around");
     core::mem::forget(r);
